@@ -14,5 +14,18 @@ CLAIMED = {
                   "code->spec trace validation by TLC",
         design="3/C04"),
 }
+CLAIMED['C05'] = dict(
+    text="TLC checks ExtSort.tla - SortView's read/sort/dump/merge/cache state machine with both merge routines, "
+         "transcribed action by action - against the declarative stable-sort definition for every table up to the bound "
+         "x every buffersize 0..n+1 x reverse x cache x two passes (plus the memory-vs-disk boundary rule); every "
+         "TLC-generated ragged table x key form (single, compound, None) is replayed on the real sort() under every "
+         "buffersize None,1..n+1 x reverse x cache x 2 passes x value profiles and on mergesort vs sort(cat); "
+         "Hypothesis tables up to 40 rows with random strategies are recorded as pass events and validated by TLC "
+         "(SortTrace) against the same definition.",
+    note="Small-scope bound (<= 5 rows in the algorithm model, <= 4 ragged rows in generated cases, <= 40 rows in "
+         "validated traces); CPython list.sort stability and heapq.merge trusted; sqlite/IO not involved.",
+    technique="TLA+ transcription of the external sort checked by TLC against a stable-sort definition; "
+              "spec->code case replay over all strategies; code->spec trace validation by TLC",
+    design="3/C05")
 
 NOT_APPLICABLE = {}
